@@ -291,3 +291,44 @@ func P32(a int32) int {
 	}
 	return int(a) + 950
 }
+
+// Loop starts with a loop: a branch from behind the first 13 bytes goes back into them, so an
+// apply with an origin placeholder has to be refused (the prologue cannot be relocated), while a
+// plain mock works.
+//
+//go:noinline
+//go:nosplit
+func Loop(a int) int {
+	for a&1 == 0 && a != 0 {
+		a >>= 1
+	}
+	return a*3 + 18
+}
+
+// OLoop is the origin placeholder offered with Loop (never written if the apply is refused).
+//
+//go:noinline
+func OLoop(a int) int {
+	x := a
+	x = x*3 + 7
+	if x == 1000 {
+		x++
+	}
+	x = x*4 + 8
+	if x == 1001 {
+		x++
+	}
+	x = x*5 + 9
+	if x == 1002 {
+		x++
+	}
+	x = x*6 + 10
+	if x == 1003 {
+		x++
+	}
+	x = x*7 + 11
+	if x == 1004 {
+		x++
+	}
+	return x
+}
